@@ -795,7 +795,7 @@ func ruleComments(c *eng.Ctx) {
 				}
 			}
 			if hasBreak {
-				if set, err := c.P.ExprByteSet(fd, is.Cond, "b", nil); err == nil && len(set) > 0 {
+				if set, err := c.P.ExprByteSet(fd, is.Cond, soleByteVar(fd, is.Cond, "b"), nil); err == nil && len(set) > 0 {
 					cond = is.Cond
 					d := sameByteSet(set, eol)
 					c.Check(d == "", R, "core.(*Lexer).readComment#terminators", is.Pos(), "comment ends at CR or LF", "document-level comments end at "+d+" instead of exactly {CR, LF}")
@@ -1179,4 +1179,26 @@ func octalTailRecursion(p *eng.Prog, fd *eng.FuncDecl) (bool, string) {
 		}
 	}
 	return false, ""
+}
+
+// soleByteVar: the name of the one byte-typed variable an expression mentions (dflt when there is not exactly one).
+func soleByteVar(fd *eng.FuncDecl, e ast.Expr, dflt string) string {
+	objs := map[types.Object]bool{}
+	ast.Inspect(e, func(n ast.Node) bool {
+		if id, ok := n.(*ast.Ident); ok {
+			if v, ok := fd.Pkg.TypesInfo.Uses[id].(*types.Var); ok {
+				if b, ok := v.Type().Underlying().(*types.Basic); ok && b.Kind() == types.Uint8 {
+					objs[v] = true
+				}
+			}
+		}
+		return true
+	})
+	if len(objs) != 1 {
+		return dflt
+	}
+	for o := range objs {
+		return o.Name()
+	}
+	return dflt
 }
